@@ -545,6 +545,83 @@ def gen_open(ctx, cases, n):
                 cases.append(Case(line, out, nontrivial=(r0 is not None and r0.iterations >= 2), tag=name))
 
 
+def gen_open_special(ctx, cases):
+    """special start values (exactly zero of every kind, subnormals, the root itself, its neighbours) for functions
+    with a unique simple root that is NOT at the start and whose basin contains the start: the accuracy clause
+    'converged=True => within tol of the root' must hold, unless f(root) == 0 in doubles or the run took the
+    documented flat-secant exit on a genuinely flat function (f(p0) == f(p1) with p0 != p1)."""
+    from quantecon.optimize.root_finding import newton, newton_halley, newton_secant
+    rng = ctx.rng
+    K1, K2 = 1 + 1e-4, 1e-4
+    probs = []
+    for r in (1.0, -1.0, 2.5, -0.375, 3.0, 0.5):
+        probs.append(("lin", C(rng.choice([2.0, -0.5, 1.0])) * (X - C(r)), Fraction(r)))
+    for r in (1.0, 2.0, -1.5, 3.5):
+        u = X - C(r)
+        probs.append(("cubic-mono", u * (u * u + C(1.0)), Fraction(r)))
+    for c_ in (0.5, 0.25, 0.75):
+        probs.append(("rational", X / (C(1.0) + X) - C(c_), Fraction(c_) / (1 - Fraction(c_))))
+    for fam, e, root in probs:
+        starts = [("+0.0", 0.0), ("-0.0", -0.0), ("np.float64(0)", np.float64(0.0)), ("int 0", 0),
+                  ("subnormal", 5e-324), ("-subnormal", -5e-324), ("1e-310", 1e-310),
+                  ("root", float(root)), ("root+ulp", float(np.nextafter(float(root), 10.0))),
+                  ("root-ulp", float(np.nextafter(float(root), -10.0)))]
+        if fam == "rational":
+            starts = [st for st in starts if not st[0].startswith("-")]
+        d1 = e.d()
+        d2 = d1.d()
+        a0, a1, a2 = e.arrays(), d1.arrays(), d2.arrays()
+        args3 = a0 + a1 + a2
+        for label, x0 in starts:
+            tol = rng.choice([1.48e-8, 1e-10, 1e-6])
+            maxiter = rng.choice([50, 50, 200])
+            xf0 = float(x0)
+            runs = [("secant", lambda disp: newton_secant(_f1, x0, args=a0, tol=tol, maxiter=maxiter, disp=disp),
+                     "f=%s k1=%s k2=%s" % (e.wire(), fx(K1), fx(K2)))]
+            if not isinstance(x0, int):          # integer starts: one extra specialisation is enough
+                runs += [("newton", lambda disp: newton(_g0, x0, _g1, args=args3, tol=tol, maxiter=maxiter, disp=disp),
+                          "f=%s fp=%s" % (e.wire(), d1.wire())),
+                         ("halley", lambda disp: newton_halley(_g0, x0, _g1, _g2, args=args3, tol=tol, maxiter=maxiter,
+                                                              disp=disp),
+                          "f=%s fp=%s fpp=%s" % (e.wire(), d1.wire(), d2.wire()))]
+            for name, call, fpart in runs:
+                out0, r0 = res_str(lambda: call(False))
+                out1, _ = res_str(lambda: call(True))
+                ctx.count("%s:special-start:%s" % (name, label))
+                rep = {"op": name, "family": fam, "f": e.wire(), "x0": repr(x0), "start": label, "true_root": float(root),
+                       "tol": tol, "maxiter": maxiter, "disp=False": out0, "disp=True": out1}
+                if r0 is None:
+                    ctx.spec_fail(name + "_raise_nodisp", "%s raised %s with disp=False" % (name, out0), rep)
+                else:
+                    rt, conv = float(r0.root), bool(r0.converged)
+                    if conv and out1 != out0:
+                        ctx.spec_fail(name + "_disp", "%s: disp=True changes a converged result" % name, rep)
+                    if not conv and out1 != "ERR:RuntimeError":
+                        ctx.spec_fail(name + "_disp", "%s: not converged, disp=True did not raise RuntimeError" % name, rep)
+                    if conv:
+                        err = abs(Fraction(rt) - root)
+                        allowed = Fraction(tol) * SLACK + 8 * Fraction(EPS) * abs(Fraction(rt))
+                        if e.ev(rt, exact=False) == 0 or err <= allowed:
+                            ctx.count(name + ":special-start-accurate")
+                        else:
+                            # the documented third exit of the secant method: first pass, two DIFFERENT points with
+                            # equal function values
+                            p1 = xf0 * K1 + K2 if xf0 >= 0 else xf0 * K1 - K2
+                            flat = (name == "secant" and int(r0.iterations) == 1 and p1 != xf0 and
+                                    e.ev(xf0, exact=False) == e.ev(p1, exact=False))
+                            if flat:
+                                ctx.count("secant:documented-flat-exit")
+                            else:
+                                ctx.spec_fail(name + "_accuracy", "%s: converged=True at %r from the start %s (in the basin of "
+                                              "the simple root %r), error %.3e > tol %g and f(root) != 0" % (
+                                                  name, rt, label, float(root), float(err), tol), rep)
+                    else:
+                        ctx.count(name + ":special-start-not-converged")
+                for disp, out in ((0, out0), (1, out1)):
+                    line = "C17 %s sc=float %s x0=%s tol=%s maxiter=%d disp=%d" % (name, fpart, fx(xf0), fx(tol), maxiter, disp)
+                    cases.append(Case(line, out, nontrivial=(r0 is not None and r0.iterations >= 2), tag=name))
+
+
 # ----------------------------------------------------------------------------------------
 # brent_max
 
@@ -736,7 +813,12 @@ def gen_neldermead(ctx, cases, n_cases):
         ([[5.0, -1.25, -1.0], [-1.25, 2.0625, 1.375], [-1.0, 1.375, 9.375]], [-3.875, -2.5, 0.125], 0.0,
          [-6.75, -3.75, 0.5], [[-6.75, -3.75], [-3.85, -3.749], [0.5, 3.5]], 1e-10, 1e-10, 1000),
     ]
-    for it in range(-len(fixed), n_cases):
+    # starts exactly ON the bounds: every combination of {lower face, upper face, interior} per coordinate,
+    # dimensions 1-3 (a point on a face is inside the bounds: both inequalities of _check_bounds are weak)
+    import itertools
+    faces = [pat for n_ in (1, 2, 3) for pat in itertools.product("LUI", repeat=n_) if set(pat) != {"I"}]
+    n_faces = len(faces) * ctx.n(1, 3)
+    for it in range(-len(fixed) - n_faces, n_cases):
         n = rng.choice([1, 2, 2, 3])
         # A = L L^T + diag, small dyadic entries: symmetric positive definite
         L = [[float(dyad(rng, -2, 2, 2)) if j <= i else 0.0 for j in range(n)] for i in range(n)]
@@ -780,7 +862,22 @@ def gen_neldermead(ctx, cases, n_cases):
         tol_f = rng.choice([1e-10, 1e-10, 1e-8, 1e-6, 1e-3])
         tol_x = rng.choice([1e-10, 1e-10, 1e-8, 1e-4])
         max_iter = rng.choice([1000, 1000, 1000, 200, 30, 5, 1, 0])
-        if it < 0:
+        if it < -len(fixed):
+            pat = faces[(it + len(fixed) + n_faces) % len(faces)]
+            n, kind = len(pat), "on-faces"
+            L = [[float(dyad(rng, -2, 2, 2)) if j <= i else 0.0 for j in range(n)] for i in range(n)]
+            A = [[sum(L[i][t] * L[j][t] for t in range(n)) + (float(dyad(rng, 1, 8, 2)) if i == j else 0.0)
+                  for j in range(n)] for i in range(n)]
+            c = [float(dyad(rng, -4, 4, 3)) for _ in range(n)]
+            k = float(dyad(rng, -3, 3, 2))
+            x0 = [ci + float(dyad(rng, -3, 3, 3)) for ci in c]
+            bounds = []
+            for xi, fc in zip(x0, pat):
+                w1, w2 = float(dyad(rng, 1, 24, 3)), float(dyad(rng, 1, 24, 3))
+                bounds.append([xi, xi + w2] if fc == "L" else [xi - w1, xi] if fc == "U" else [xi - w1, xi + w2])
+            ctx.count("nm:start-on-face:" + "".join(pat))
+            tol_f, tol_x, max_iter = 1e-10, 1e-10, rng.choice([1000, 1000, 50, 3])
+        elif it < 0:
             A, c, k, x0, bounds, tol_f, tol_x, max_iter = fixed[it + len(fixed)]
             n, kind = len(c), ("fixed" if it + len(fixed) < 2 else "fixed-witness")
         An, cn = np.array(A, dtype=np.float64).reshape(n, n), np.array(c, dtype=np.float64)
@@ -819,9 +916,13 @@ def gen_neldermead(ctx, cases, n_cases):
             else:
                 best0 = max(quad_exact(A, c, k, v) for v in init_feas)
                 # f is evaluated in doubles: allow the rounding of one evaluation
-                if quad_exact(A, c, k, x) < best0 - 64 * Fraction(EPS) * (abs(best0) + 1):
+                slack0 = 64 * Fraction(EPS) * (abs(best0) + 1)
+                if quad_exact(A, c, k, x) < best0 - slack0:
                     ctx.spec_fail("nm_monotone", "nelder_mead: f(x)=%r is below the best initial vertex %r" % (
                         float(quad_exact(A, c, k, x)), float(best0)), rep)
+                elif math.isnan(fun) or math.isinf(fun) or Fraction(fun) < best0 - slack0:
+                    ctx.spec_fail("nm_monotone", "nelder_mead: reported fun=%r is below the best (feasible) initial vertex "
+                                  "value %r" % (fun, float(best0)), rep)
         else:
             ctx.count("nm:all-initial-vertices-infeasible")
         # observable traces of a corrupted sort_ind (counters; the property does not promise these)
@@ -867,6 +968,12 @@ def gen_neldermead(ctx, cases, n_cases):
                 ctx.count("nm:success-away-from-maximiser:" + kind)
                 ctx.spec_fail("nm_success_f_tie", "nelder_mead: success=True on equal f-values at a wide simplex, f(x) is "
                               "%.3e below the maximum" % float(gap), rep)
+            elif bounds is None and min((abs(v) * 0.05 if v != 0 else ZD) for v in x0) <= 1e-3:
+                # an initial edge of the simplex is tiny (x0[i] = 0 gives 0.00025): LV_ratio measures the volume
+                # relative to the INITIAL simplex, so term_x fires on a thin simplex that has not reached the maximiser
+                ctx.count("nm:success-away-from-maximiser:" + kind)
+                ctx.spec_fail("nm_success_tiny_initial_edge", "nelder_mead: success=True from a start with a tiny initial "
+                              "simplex edge, f(x) is %.3e below the maximum (narrow final simplex)" % float(gap), rep)
             else:
                 ctx.count("nm:success-away-from-maximiser:" + kind)
                 ctx.spec_fail("nm_success_not_maximiser", "nelder_mead: success=True on a concave quadratic (no active "
@@ -931,6 +1038,7 @@ def run(ctx):
                 "of the known findings and the 2 witnesses of the repaired shrink re-sort (must run > 2 passes, x best row)")
     gen_brackets(ctx, cases, ctx.n(250, 3000))
     gen_open(ctx, cases, ctx.n(200, 2500))
+    gen_open_special(ctx, cases)
     gen_brentmax(ctx, cases, ctx.n(300, 4000))
     gen_neldermead(ctx, cases, ctx.n(300, 3000))
     gen_transcendental(ctx, ctx.n(20, 200))
